@@ -151,7 +151,7 @@ def _make_wfs_table(
 
     # this array contains the (up to) max_wf *indices* of the wfs
     # we are going to extract for that unit
-    unit_wf_idx = np.zeros((nu, max_wf), int)
+    unit_wf_idx = np.zeros((nu, max_wf), int) - 1
     unit_nspikes = np.zeros(nu, int)
     for i, u in enumerate(unit_ids):
         u_spikeidx = np.where((spike_clusters == u) & allowed_idx)[0]
@@ -163,8 +163,8 @@ def _make_wfs_table(
 
     # all wf indices in order
     wf_idx = np.sort(unit_wf_idx.flatten())
-    # remove initial zeros
-    wf_idx = wf_idx[np.nonzero(wf_idx)[0][0]:]
+    # remove the padding
+    wf_idx = wf_idx[wf_idx >= 0]
 
     # get sample times, clusters, channels
     wf_flat = pd.DataFrame(
